@@ -50,6 +50,7 @@ class Trace(object):
         self.universe_calls = 0
         self.error = None
         self.sizer = []
+        self.curve_reads = []    # (dt of a rebalance, length of the equity curve read at that moment)
 
 
 CUR = [None]
@@ -122,6 +123,13 @@ def hook():
                 out = orig(self, dt, weights)
                 if tr is not None:
                     tr.sizer.append((dt, w, {a: d['quantity'] for a, d in out.items()}))
+                    sess_ = getattr(tr, 'session', None)
+                    if sess_ is not None and hasattr(sess_, 'get_equity_curve'):
+                        # strategy code doing draw-down control reads its own curve while the session runs
+                        try:
+                            tr.curve_reads.append((dt, len(sess_.get_equity_curve())))
+                        except Exception:
+                            tr.curve_reads.append((dt, None))      # (an empty curve cannot be framed: not judged)
                 return out
             return sizer_call
         cls.__call__ = mk(cls.__call__)
@@ -614,7 +622,18 @@ def check_c14(cfg, world, tr, acc):
     if got_dates != want_dates:
         V('C14', 'equity-dates', 'equity curve dates: %d (%s .. %s), expected %d (%s .. %s)'
           % (len(got_dates), got_dates[:1], got_dates[-1:], len(want_dates), want_dates[:1], want_dates[-1:]))
-    if len(tr.equity) != len(want_dates):
+    # the curve as read DURING the run (at each rebalance, before that day's own point is taken): one point per close so far
+    for t_, n_ in tr.curve_reads:
+        so_far = len([d for d in want_dates if cal.at(d, cal.CLOSE) < py(t_)])
+        if so_far and n_ != so_far:
+            V('C14', 'equity-curve-read-during-run', 'read at the rebalance of %s the equity curve had %s points, %d closes had '
+              'been recorded by then' % (py(t_), n_, so_far))
+        if so_far:
+            acc.count('C14:curve_reads_during_run_judged')
+    if not tr.equity and want_dates:
+        # the sampling hook sits on a private method; a session that records its points without it is judged by its curve only
+        acc.count('C14:equity_hook_not_reached')
+    elif len(tr.equity) != len(want_dates):
         V('C14', 'equity-samples', '%d equity samples taken, expected %d' % (len(tr.equity), len(want_dates)))
     for rec, d, val in zip(tr.equity, want_dates, list(ec['Equity'])):
         t = py(rec['dt'])
